@@ -9,6 +9,9 @@
 (*   sym_ok      for every b: (a == b) = (b == a)                          *)
 (*   trans_ok    for every b, c: a == b and b == c imply a == c            *)
 (*   value_ok    for every probe value w: (a == w) = validate(a, w) ok     *)
+(*   stable      the row of the relation is the same after every schema    *)
+(*               has been put to every public use (printing the schema and *)
+(*               its props, generation, validation, helpers, operators)    *)
 (*   equals      the other schemas b with a == b, each with the real       *)
 (*               verdicts of a and b on probe values [w, ok_a, ok_b]       *)
 (***************************************************************************)
@@ -27,17 +30,29 @@ FirstDiffering(e, j) ==
        THEN "FAIL:equal_schemas_disagree_on_a_value:" \o Sig(e, e.equals[j].b)
   ELSE FirstDiffering(e, j + 1)
 
+\* "changing a declared parameter in a way that alters what the schema accepts makes them unequal":
+\* two declarations the real == calls equal must accept the same values by their declared meaning
+\* (a witness of one that the other's declaration rejects, or a probe they are declared to judge
+\* differently, shows they do not)
+DeclaredApart(a, b, probes) ==
+  \/ Sat(a) /\ ~Conforms(b, Get(Witness(a)))
+  \/ Sat(b) /\ ~Conforms(a, Get(Witness(b)))
+  \/ \E p \in DOMAIN probes : Conforms(a, probes[p].w) # Conforms(b, probes[p].w)
+
 \* optional(key) markers (d42/declaration/types/_optional.py): equal exactly when their keys are,
 \* hash-consistent, never equal to the bare key -- observed on the real class for every pair of
 \* keys of the key zoo and reported as one flag per schema event
 Verdict(e) ==
   IF ~e.optional_ok THEN "FAIL:optional_marker_equality_or_hash:"
   ELSE IF ~e.refl THEN "FAIL:not_reflexive:"
+  ELSE IF ~e.stable THEN "FAIL:relation_changed_after_the_schemas_were_used:"
   ELSE IF ~e.rebuilt_eq THEN "FAIL:independent_builds_unequal:"
   ELSE IF ~e.ne_ok THEN "FAIL:ne_is_not_the_negation_of_eq:"
   ELSE IF ~e.sym_ok THEN "FAIL:not_symmetric:"
   ELSE IF ~e.trans_ok THEN "FAIL:not_transitive:"
   ELSE IF ~e.value_ok THEN "FAIL:eq_with_value_differs_from_validate:"
+  ELSE IF \E j \in DOMAIN e.equals : DeclaredApart(e.a, e.equals[j].b, e.equals[j].probes)
+       THEN "FAIL:declarations_that_accept_different_values_compare_equal:"
   ELSE FirstDiffering(e, 1)
 
 \* the operational model of == predicts exactly which schemas compare equal
